@@ -13,6 +13,8 @@ CLAIMED = {
          "Records stay inside the block; arrival order = delivery order at the client's endpoint; an abandoned connection is held to prefix consistency only."),
  "C15": ("exploration", "3.C15", "Seeded search over responder sets (identifiers, names incl. '|' and latin-1), reply multiplicity/latency/loss, eight filter settings, drawn timing tables and loop stalls; oracle on the listed set (must/may windows that allow the consumer's one-per-interval service time), field integrity, termination bounds, endpoint close and LOC task cleanup.",
          "Only hello replies reach the locator endpoint; two spas never share an identifier."),
+ "C17": ("exploration", "3.C17", "Seeded search over sleeper/switch schedules in virtual time (1-20 concurrent config_sleep callers, 0-12 switches, same-instant cases, drawn tables and callback costs/stalls) with a monitor on the live config after every callback; 1 in 5 runs is the full client with the model spa flipping pump/blower bytes, sampling 'active iff some pump or blower is on' after every callback.",
+         "A shared change future exists before the first switch; 'at once' = all time between switch and wake is injected callback cost (+2 ms); only upper bounds on sleep are checked."),
 }
 PENDING = {}
 NA = {
